@@ -36,6 +36,8 @@ def suite_c03(r, n):
             dkey, m = r.pick(allm)
             inherited = dkey != skey
             transport = r.pick(TRANSPORTS)
+            if m["ret"] is not None and p.resolve(m["ret"]).k in "sx" and r.chance(50):
+                transport = "bounded"      # an oversized reply first (bounded reply buffer, as on the NATS server), then the real call
             proto = r.pick(["binary", "compact", "json"])
             args = gen_args(r, p, m)
             kinds = ["v", "v", "e", "a"] + (["x", "x"] if m["throws"] else [])
@@ -100,7 +102,12 @@ def suite_c03(r, n):
         segs = real.split(" || ")
         real = segs[0]
         hseg = [x for x in segs[1:] if x.startswith("H ")]
-        segs = [segs[0]] + [x for x in segs[1:] if not x.startswith("H ")]
+        pseg = [x for x in segs[1:] if x.startswith("P ")]
+        segs = [segs[0]] + [x for x in segs[1:] if not x.startswith("H ") and not x.startswith("P ")]
+        if pseg:
+            Stat("bounded-precall")
+            if pseg[0] != "P pre=responseTooLarge":
+                OracleFail("a reply larger than the server-side limit did not reach the caller as RESPONSE_TOO_LARGE", {"op": "g12", "case": tag, "line": line, "got": pseg[0]})
         if hseg:
             # C09 through generated code: the handler sees exactly the caller's user headers; every response header the
             # handler sets is on the caller's context when a reply was read (not for oneway)
